@@ -137,6 +137,11 @@ pub enum Mut {
     WCredSwap(usize, usize),
     WCredDrop(usize),
     WCredAppend(Value, vw::Prov), // a credential (with its proof) taken from another W3C presentation, appended
+    /// a copy of entry i, its proof made unusable as a credential presentation proof (purpose `authentication`), put in front
+    WFrontCopyUnusable(usize),
+    /// the proof of entry i becomes a LIST: a copy with purpose `authentication` first, then the genuine proof, its
+    /// verification method replaced when one is given
+    WProofList(usize, Option<String>),
 }
 
 fn bump_decimal(s: &str) -> String {
@@ -325,6 +330,37 @@ fn apply_w3c(p: &mut W3CPresentation, provs: &mut Vec<Prov>, m: &Mut) {
             if let Ok(vc) = serde_json::from_value(vcj.clone()) {
                 p.verifiable_credential.push(vc);
                 provs.push(prov.clone());
+            }
+        }
+        Mut::WFrontCopyUnusable(i) => {
+            if let Some(vc) = p.verifiable_credential.get(*i) {
+                let mut vj = serde_json::to_value(vc).unwrap();
+                if vj["proof"].is_object() {
+                    vj["proof"]["proofPurpose"] = json!("authentication");
+                    if let Ok(front) = serde_json::from_value(vj) {
+                        p.verifiable_credential.insert(0, front);
+                        let mut pr = provs.get(*i).cloned().unwrap_or(Prov { cred: 0, used_link: 0, pos: 0, nrp: None, altered: true });
+                        pr.altered = true;
+                        provs.insert(0, pr);
+                    }
+                }
+            }
+        }
+        Mut::WProofList(i, method) => {
+            if let Some(vc) = p.verifiable_credential.get_mut(*i) {
+                let mut vj = serde_json::to_value(&*vc).unwrap();
+                if vj["proof"].is_object() {
+                    let mut first = vj["proof"].clone();
+                    first["proofPurpose"] = json!("authentication");
+                    let mut second = vj["proof"].clone();
+                    if let Some(m) = method {
+                        second["verificationMethod"] = json!(m);
+                    }
+                    vj["proof"] = json!([first, second]);
+                    if let Ok(nv) = serde_json::from_value(vj) {
+                        *vc = nv;
+                    }
+                }
             }
         }
         Mut::WIssuer(i, s) => {
@@ -760,6 +796,51 @@ fn common_families(r: &mut Rng, w: &World, thorough: bool) -> Vec<VJob> {
                 }
                 j.class = format!("mutated:{}", match j.muts.first() { Some(m) => format!("{:?}", m).split('(').next().unwrap().to_string(), None => "none".into() });
                 jobs.push(j);
+            }
+        }
+    }
+    jobs.extend(later_families(w));
+    jobs
+}
+
+/// families added after the eighth round of seeded changes (both formats)
+fn later_families(w: &World) -> Vec<VJob> {
+    let mut jobs = vec![];
+    for fmt in [Fmt::Legacy, Fmt::W3C] {
+        // W3C: an entry whose proof cannot be used in front of the genuine one (honest, and with the genuine entry edited);
+        // the proof of an entry turned into a list whose first member is not a credential presentation proof
+        if fmt == Fmt::W3C {
+            let spec = ReqSpec::new(NONCE).attr("a_name", "name").attr("a_sex", "sex").pred("p_age", "age", ">=", 18);
+            let picks = vec![pick(0, &[("a_name", true), ("a_sex", true)], &["p_age"], None)];
+            let edits: Vec<Vec<Mut>> = vec![
+                vec![],
+                vec![Mut::WSubjectSet(1, "name".into(), json!("Mallory"))],
+                vec![Mut::WSubjectSet(1, "height".into(), json!(210))],
+                vec![Mut::WIssuer(1, "did:web:mallory.example".into())],
+            ];
+            for e in edits {
+                let mut j = job("w3c-unusable-entry-in-front", fmt, &spec, &spec, picks.clone(), w);
+                j.muts = vec![Mut::WFrontCopyUnusable(0)];
+                j.muts.extend(e);
+                jobs.push(j);
+            }
+            for m in [Some("creddef:mallory".to_string()), Some(w.cds[3].cred_def_id.clone())] {
+                let mut j = job("w3c-proof-list-behind-unusable-proof", fmt, &spec, &spec, picks.clone(), w);
+                j.muts = vec![Mut::WProofList(0, m)];
+                jobs.push(j);
+            }
+        }
+        // one attribute under two predicates of the same kind with different thresholds, from one credential: honest,
+        // and a presentation that proves the weaker threshold twice shown for the request that also asks the stronger
+        for (op, weak, strong) in [(">=", 18, 21), ("<=", 65, 40), (">", 17, 27), ("<", 66, 29)] {
+            let picks = vec![pick(0, &[("a_name", true)], &["p_1", "p_2"], None)];
+            let both = ReqSpec::new(NONCE).attr("a_name", "name").pred("p_1", "age", op, weak).pred("p_2", "age", op, strong);
+            jobs.push(job("two-thresholds-one-attribute", fmt, &both, &both, picks.clone(), w));
+            for flip in [false, true] {
+                let (t1, t2) = if flip { (strong, weak) } else { (weak, strong) };
+                let build = ReqSpec::new(NONCE).attr("a_name", "name").pred("p_1", "age", op, weak).pred("p_2", "age", op, weak);
+                let verify = ReqSpec::new(NONCE).attr("a_name", "name").pred("p_1", "age", op, t1).pred("p_2", "age", op, t2);
+                jobs.push(job("weaker-threshold-proved-twice", fmt, &build, &verify, picks.clone(), w));
             }
         }
     }
